@@ -75,10 +75,6 @@ Proof.
 Qed.
 
 (** the two objects of Example.v (all 23 section kinds between them) meet them *)
-Example example_tough2_idem : idem_hyps example_tough2 example_tough2_order = true.
-Proof. vm_compute. reflexivity. Qed.
-Example example_autough2_idem : idem_hyps example_autough2 example_autough2_order = true.
-Proof. vm_compute. reflexivity. Qed.
 Example example_tough2_idem_strict : idem_hyps_strict example_tough2 example_tough2_order = true.
 Proof. vm_compute. reflexivity. Qed.
 Example example_autough2_idem_strict : idem_hyps_strict example_autough2 example_autough2_order = true.
